@@ -31,6 +31,11 @@ CHECKS = {
             "Scenario matrix: 4 request bodies x 31 admin/background bodies, every background body x every admin body (thorough: + request x background x admin triples), on a full assembly wired as in package home (server, filter with file lists, client storage, query log, statistics on bbolt). E2 owns every Mutex/RWMutex(writer preference)/WaitGroup/Once/atomic operation of the rewritten AGH packages and bbolt and explores all schedules with <=1 (quick) / <=2 (thorough) preemptions: no panic, deadlock or livelock, well-formed response, operations succeed. E4 runs every scenario in both start orders with staggered starts under -race.",
             "data races are decided by the race detector's happens-before analysis of observed free runs (order-dependent), not by schedule enumeration; goroutines the code spawns itself are replaced by explicit bodies; DHCP lease operations and restart-type DNS settings are not in the matrix.",
             "DESIGN.md §2.3, §2.4, §4 C05", "E2+E4"),
+    "C06": ("exploration",
+            "bounded exhaustive enumeration of ordered rewrite tables x queries through the real filter (and the real server for the wire level) against an independent resolver written from AGHTechDoc, with all-permutations and watchdog termination oracles",
+            "All ordered tables of <=3 entries over 81 (pattern, answer) pairs plus <=4 over a 35-entry sub-alphabet (thorough: <=4 / <=5) x 9 names x A/AAAA/TXT through filtering.New + CheckHost; every permutation of a table must resolve identically (except documented ties); each call under a 5 s watchdog. Wire level: real dnsforward server with a recording upstream answering with records, NODATA and NXDOMAIN: CNAME first, original question restored, upstream asked only for the canonical name, matched-without-value => empty NOERROR and no upstream call.",
+            "several CNAME targets or several values for one and the same wildcard pattern are ties (either may win, order dependence not flagged); exact-over-wildcard shadowing among address entries accepted per kind or per family.",
+            "DESIGN.md §4 C06", "E1-stateless"),
     "C07": ("model_checking",
             "explicit-state BFS over record/flush/rotate/clear/read/config/restart histories on the real query log (three-list reference, full API comparison and paging walks in every state), plus exhaustive enumeration of search-parameter combinations on fixed layouts",
             "Phase A: histories of depth 5 (quick) / 6-7 (thorough) over 4-6 entry kinds, flush, rotate, clear, API read, restart, logging and anonymisation toggles x 5 (memory size, file) configurations; after every transition the unfiltered API result equals reverse(rotated ++ current ++ memory) on 20 fields, every stored line survives decode+re-encode, and cursor and offset paging with limit 1 and 2 partition the sequence. Phase B: 13-15 layouts x limits x offsets x older_than x search terms x statuses against independent predicates; malformed values never panic; quickMatch over-approximates the full match.",
